@@ -66,21 +66,33 @@ func stageL3(r *vf.Run) {
 		ls := cands[rng.Intn(len(cands))]
 		variant := []string{"stalled", "clean"}[i%2]
 		store := rng.PickS("memory", "db")
-		async := int64(0)
-		if variant == "stalled" && rng.Chance(1, 4) {
-			async = 1
+		// stalled variant: threshold 0 / between the real range (landmark offset) and the
+		// configured size ("below": Check must still wait) / below the real range ("above":
+		// early release is legitimate)
+		async, psize, fam := int64(0), int64(0), ""
+		if variant == "stalled" && ls.LandmarkOffset > 1 {
+			switch x := (i / 2 + 1) % 4; { // stalled cases cycle: below, below, above, threshold 0
+			case x == 1 || x == 2:
+				async = ls.LandmarkOffset + int64(rng.Pick(0, 100))
+				psize = async + int64(rng.Pick(1, 10<<20))
+				fam = "below"
+			case x == 3:
+				async = ls.LandmarkOffset - 1
+				psize = int64(rng.Pick(0, 10<<20))
+				fam = "above"
+			}
 		}
-		ok := r.Watchdog(6*time.Minute, "case l3", func() { l3Case(r, i, ls, variant, store, async) })
+		ok := r.Watchdog(6*time.Minute, "case l3", func() { l3Case(r, i, ls, variant, store, async, psize, fam) })
 		if !ok {
 			return
 		}
 	}
 }
 
-func l3Case(r *vf.Run, idx int, ls *lx.LayerSpec, variant, store string, async int64) {
+func l3Case(r *vf.Run, idx int, ls *lx.LayerSpec, variant, store string, async, psize int64, fam string) {
 	r.Eval(1)
-	desc := fmt.Sprintf("l3 %s store=%s async=%d layer=%s", variant, store, async, ls.Desc)
-	replay := map[string]any{"stage": "l3", "case": idx, "seed": r.Seed, "variant": variant, "store": store, "async": async, "layer": ls.Desc}
+	desc := fmt.Sprintf("l3 %s store=%s async=%d(%s) prefetchsize=%d layer=%s", variant, store, async, fam, psize, ls.Desc)
+	replay := map[string]any{"stage": "l3", "case": idx, "seed": r.Seed, "variant": variant, "store": store, "async": async, "family": fam, "prefetch_size": psize, "layer": ls.Desc}
 	reg := memreg.New()
 	im, err := l2.Publish(reg, "reg.test", "img", "v1", []*blob.Built{ls.Built})
 	if err != nil {
@@ -97,7 +109,7 @@ func l3Case(r *vf.Run, idx int, ls *lx.LayerSpec, variant, store string, async i
 	if variant == "clean" {
 		timeout = 60
 	}
-	cfg := config.Config{NoBackgroundFetch: true, NoPrometheus: true, PrefetchSize: 0, PrefetchTimeoutSec: timeout, PrefetchAsyncSize: async,
+	cfg := config.Config{NoBackgroundFetch: true, NoPrometheus: true, PrefetchSize: psize, PrefetchTimeoutSec: timeout, PrefetchAsyncSize: async,
 		BlobConfig: config.BlobConfig{ChunkSize: 256}}
 	cfg.DirectoryCacheConfig.SyncAdd = true
 	ms, closeMS, db, err := l2.MetadataStore(store, root)
@@ -201,8 +213,13 @@ func l3Case(r *vf.Run, idx int, ls *lx.LayerSpec, variant, store string, async i
 		if cerr != nil {
 			r.Distinct("l3_check_errors", errClass(cerr))
 		}
-		if async == 0 && dur < time.Second {
-			r.Violate("l3-check:returned-before-prefetch-ended-or-timeout", fmt.Sprintf("the first Check after Mount returned after %v although the prefetch was still stalled in the registry, the configured timeout is 1 s and no async threshold is set [%s]", dur, desc), replay)
+		// an async early release is legitimate only when the size really prefetched (the
+		// landmark offset) exceeds the threshold
+		if (async == 0 || ls.LandmarkOffset <= async) && dur < time.Second {
+			r.Violate("l3-check:returned-before-prefetch-ended-or-timeout", fmt.Sprintf("the first Check after Mount returned after %v although the prefetch was still stalled in the registry, the configured timeout is 1 s and the async threshold (%d) is not exceeded by the size really prefetched (landmark offset %d; configured size %d) [%s]", dur, async, ls.LandmarkOffset, psize, desc), replay)
+		}
+		if fam != "" {
+			r.Count("strong_L3-check-stalled-async-"+fam, 1)
 		}
 		r.NonTrivial(desc)
 		r.Count("strong_L3-check-stalled", 1)
